@@ -99,6 +99,18 @@ def run(chk):
             d = b''.join(unhex(b.split(':')[0]) for b in spec.split('+'))
         lines.append('rencm 1 131072 %s' % spec)
         datas.append(([d], 131072))
+    # a block whose literals do not pay for a Huffman table (they go out raw inside a compressed block, after which no
+    # table is known to the decoder), then a literal-only block with the same exactly flat histogram whose literals do pay
+    for k, times in ((200, 6), (180, 7), (230, 5), (200, 8)) if thorough else ((200, 6), (180, 7)):
+        b1, b2 = encgen.flat_then_flat(rng, k, times, first_len=rng.range(15000, 40000), second_len=rng.range(30000, 60000))
+        nl = k * times
+        spec = '%s+%s' % (encgen.block_spec(b1, [(nl, nl, len(b1) - nl)]), encgen.block_spec(b2, []))
+        lines.append('rencm 1 131072 %s' % spec)
+        datas.append(([b1 + b2], 131072))
+        pre = rng.bytes(2000)
+        spec = '%s+%s+%s' % (encgen.block_spec(pre, []), encgen.block_spec(b1, [(nl, nl, len(b1) - nl)]), encgen.block_spec(b2, []))
+        lines.append('rencm 1 131072 %s' % spec)
+        datas.append(([pre + b1 + b2], 131072))
     # offset codes with a flat histogram over many codes plus one rare code (the normalised counts then exceed the
     # largest table the format allows for offsets and must be scaled down)
     for i in range(24 if thorough else 8):
